@@ -65,6 +65,7 @@ type Prog struct {
 	gram    *Grammar
 	gramErr error
 	exhEng  *exh
+	taint   map[ssa.Value]bool
 }
 
 // applyOverlay builds a go/packages overlay from substitutions. It fails if a
